@@ -652,3 +652,31 @@ package module
 //@                 + "-0." + (t.UTC().Format("20060102150405") + "-" + rev) + semver.Build(old(older))
 //@   uses sprintf_s_dash_s canon_valid canon_shape canon_release
 //@   props C18
+
+//@ # ====================== private-module patterns (C06) ======================
+//@ # EP(t, i, n): where the first n+1 path elements of t end, scanning from i with n slashes still to pass: the
+//@ # position of the (n+1)'th slash, or len(t) when t has exactly n slashes left, or -1 when it has fewer
+//@ spec func EP(t string, i int, n int) int decreases len(t) - i =
+//@     if i >= len(t) then (if n == 0 then len(t) else 0 - 1)
+//@     else if t[i] == '/' then (if n == 0 then i else EP(t, i + 1, n - 1))
+//@     else EP(t, i + 1, n)
+//@ # a glob with N slashes is matched against the first N+1 path elements of the target
+//@ spec func GLOBHIT(glob string, t string) bool =
+//@     EP(t, 0, strings.Count(glob, "/")) >= 0 && path.Match_r0(glob, t[:EP(t, 0, strings.Count(glob, "/"))])
+//@ # the comma-separated list: empty entries are skipped, one trailing slash is dropped, malformed globs never match
+//@ spec func MPP(globs string, t string) bool decreases len(globs) =
+//@     globs != "" && (
+//@       if strings.Index(globs, ",") >= 0
+//@       then (strings.TrimSuffix(globs[:strings.Index(globs, ",")], "/") != "" && GLOBHIT(strings.TrimSuffix(globs[:strings.Index(globs, ",")], "/"), t)) || MPP(globs[strings.Index(globs, ",")+1:], t)
+//@       else strings.TrimSuffix(globs, "/") != "" && GLOBHIT(strings.TrimSuffix(globs, "/"), t))
+//@ func MatchPrefixPatterns
+//@   pure
+//@   ensures [C06] prefix_glob_definition: result == MPP(globs, target)
+//@   loop 0:
+//@     invariant MPP(old(globs), target) == MPP(globs, target)
+//@     decreases len(globs)
+//@   loop 1:
+//@     invariant 0 <= i && i <= len(target) && n >= 0 && prefix == target
+//@     invariant EP(target, i, n) == EP(target, 0, strings.Count(glob, "/"))
+//@     decreases len(target) - i
+//@   props C06
